@@ -1,1 +1,125 @@
-/- C01 property theorems (stub: not built yet) -/
+/-
+  C01 — every accepted IDL yields Go code that compiles (DESIGN.md §5.1).
+
+  What is proved here is the part of C01 a theorem can carry: the identifiers thriftgo's namespaces hand out
+  (package level, struct members, method parameters) and the import table, for EVERY naming style (`ident` is
+  universally quantified) and every program.  That the template TEXT around those identifiers is well-typed Go is
+  outside Lean: the Go toolchain (go/parser, go build, go vet) is the oracle of checks/c01.py.
+-/
+import ThriftVerif.Lib.NamesLemmas
+import ThriftVerif.Generated.C01
+
+namespace Props.C01
+open Names
+
+/-- `Add` never returns a name that is bound to a different id. -/
+theorem ns_add_fresh (rn : Bytes → Nat → Bytes) (ns ns' : NS) (name id res : Bytes)
+    (h : ns.add rn name id = .ok (res, ns')) :
+    (∀ id', lk res ns.n2i = some id' → id' = id) ∧ lk res ns'.n2i = some id ∧ lk id ns'.i2n = some res :=
+  Names.add_fresh rn ns ns' name id res h
+
+/-- After any history of Add / Reserve (any rename function) the id→name table is injective, and ID ∘ Get is the
+    identity on live ids. -/
+theorem ns_inj (rn : Bytes → Nat → Bytes) (ops : List Op) (ns : NS) (tr : List (Bytes × Bytes))
+    (h : runOps rn NS.empty ops = .ok (ns, tr)) :
+    (∀ i1 i2 n, lk i1 ns.i2n = some n → lk i2 ns.i2n = some n → i1 = i2) ∧
+    (∀ id n, lk id ns.i2n = some n → ns.idOf (ns.get id) = id) :=
+  Names.runOps_inj rn ops ns tr h
+
+/-- In any history the relation name ↦ id is functional: a name is never handed out for two different ids;
+    hence distinct ids get distinct names. -/
+theorem ns_names_distinct (rn : Bytes → Nat → Bytes) (ops : List Op) (ns : NS) (tr : List (Bytes × Bytes))
+    (h : runOps rn NS.empty ops = .ok (ns, tr)) :
+    (∀ n i j, (n, i) ∈ tr → (n, j) ∈ tr → i = j) ∧ ((ops.map Op.id).Nodup → (tr.map (·.1)).Nodup) :=
+  Names.runOps_distinct rn ops ns tr h
+
+/-- For EVERY naming function: the package-level identifiers bound by installNames are pairwise distinct, provided
+    the ids they are bound under are (raw definition names are unique by semantic.CheckGlobals; the synthesized
+    `<fn>_args` / `<fn>_result` ids are NOT service-qualified in buildStructLike, so the hypothesis also asks for
+    function names that are unique in the file — see docs/C01.md). -/
+theorem scope_globals_nodup (ft : Feat) (kw : List Bytes) (f : File) (ident : Bytes → Bytes) (s : ScopeNames)
+    (h : buildScope ft kw f ident = .ok s) (hid : (globalIds ft ident f).Nodup) :
+    (declaredGlobals s).Nodup :=
+  Names.buildScope_nodup ft kw f ident s h hid
+
+example : ∃ (f : File), f.structs ≠ [] ∧ (globalIds {} id f).Nodup :=
+  ⟨{ structs := [{ name := [83], cat := .struct, fields := [] }] }, by decide, by decide⟩
+
+/-- Method names and field names handed out by the namespace of one struct-like are pairwise distinct
+    (field names and field ids are unique by semantic.CheckStructLikes; that is what `memberIds … Nodup` says).
+    `hraw`: field names are IDL identifiers, so they do not start with '$' (the prefix of the internal method ids);
+    without it the statement is false on the model: with gen_setter off, a field literally named `$set:x` next to
+    a field `x` is read back as the "setter" of `x` by `scope.Get("$set:x")`. -/
+theorem struct_members_nodup (ft : Feat) (ident : Bytes → Bytes) (raw : Bytes) (cat : Cat) (fields : List Fld)
+    (ns : NS) (fs : List FieldNames) (h : buildMembers ft ident raw cat fields = .ok (ns, fs))
+    (hid : (memberIds ft ident raw cat fields).Nodup)
+    (hraw : ∀ f ∈ fields, hasDollar f.name = false) :
+    (reservedFuncs ft cat raw ++ fs.flatMap fieldMethodNames ++ fs.map (·.name)).Nodup :=
+  Names.buildMembers_nodup ft ident raw cat fields ns fs h hid hraw
+
+/-- Parameter names are pairwise distinct, differ from the names the templates use in a method body
+    (`p, err, ctx` and, for non-void functions, `r, _result`) and are not keywords (of the table in types.go). -/
+theorem func_params_safe (ft : Feat) (ident : Bytes → Bytes) (kw : List Bytes) (f : Fn) (ns : NS)
+    (h : buildFunction ft ident kw f = .ok ns)
+    (hargs : ((f.args ++ f.throws).map (·.name)).Nodup)
+    (hraw : ∀ a ∈ f.args ++ f.throws, hasDollar a.name = false)
+    (hkw : ∀ k ∈ kw, 95 ∉ k) :
+    let ps := f.args.map (fun a => ns.get a.name)
+    ps.Nodup ∧ (∀ p ∈ ps, p ∉ fnReserved f.void) ∧ (∀ p ∈ ps, p ∉ kw) :=
+  Names.buildFunction_safe ft ident kw f ns h hargs hraw hkw
+
+/-- the regenerated keyword table of types.go covers the keywords of the Go toolchain, and no keyword has a '_' -/
+theorem keywords_cover :
+    (∀ k ∈ Generated.C01.goKeywords, k ∈ Generated.C01.isKeywords) ∧ (∀ k ∈ Generated.C01.isKeywords, 95 ∉ k) := by
+  decide
+
+/-- ResolveImports returns exactly: every alias ever bound (std libs at init, includes of other go namespaces)
+    except the std libs on which UseStdLibrary was NOT called; aliases are pairwise distinct. -/
+theorem imports_exact (std repl : Table) (incs : List (Bytes × Bytes × Bool)) (libs : List Bytes)
+    (im0 im1 : ImportMgr) (pkgs : List Bytes)
+    (h0 : ImportMgr.init std repl = .ok im0) (h1 : includeLoop im0 incs = .ok (im1, pkgs)) :
+    let im2 := im1.useStd libs
+    (∀ path a, (path, a) ∈ im2.resolve ↔
+        ∃ alias, (alias, path) ∈ im1.ns.n2i ∧ ¬ (alias ∈ im1.notUsed ∧ alias ∉ libs) ∧
+          a = (if alias = path || isSuffix (47 :: alias) path then [] else alias)) ∧
+    (im1.ns.n2i.map (·.1)).Nodup ∧
+    (∀ l, l ∈ im1.notUsed → l ∈ std.map (·.1)) :=
+  Names.imports_exact std repl incs libs im0 im1 pkgs h0 h1
+
+/-
+  FULL STATEMENT (false on the model and on the code — see the witness below):
+    buildScope ft kw f ident = .ok s → (globalIds ft ident f).Nodup → (fileGlobals ft s).Nodup
+  i.e. "no package-level identifier is declared twice".  The templates mint identifiers outside the namespace
+  (`<T>_<F>_DEFAULT`, `<Enum>_<Value>`, `<Enum>FromString`, `<Enum>Ptr`, `New<Svc>Client…`, `<svc>Processor<Fn>`).
+-/
+/-- partial: under the decidable hypothesis `noMintClash` every package-level identifier of the generated file is
+    declared once. -/
+theorem scope_globals_complete_partial (ft : Feat) (kw : List Bytes) (f : File) (ident : Bytes → Bytes)
+    (s : ScopeNames) (h : buildScope ft kw f ident = .ok s) (hid : (globalIds ft ident f).Nodup)
+    (hm : noMintClash ft s = true) : (fileGlobals ft s).Nodup :=
+  Names.fileGlobals_nodup ft kw f ident s h hid hm
+
+/-- the thriftgo naming style on the two names of the witness: `a__b` ↦ `A_B`, `A` ↦ `A` -/
+def witnessIdent (raw : Bytes) : Bytes := if raw = [97, 95, 95, 98] then [65, 95, 66] else raw
+
+def witnessFile : File :=
+  { structs := [{ name := [97, 95, 95, 98], cat := .struct, fields := [] }],
+    enums := [{ name := [65], values := [[66]] }] }
+
+/-- `noMintClash` cannot be discharged for the shipped styles: `enum A {B}` + `struct a__b {}` under the default
+    style declares `A_B` twice (replayed on the implementation by checks/c01.py, unit `X1`). -/
+theorem mint_clash_witness :
+    ∃ s, buildScope {} [] witnessFile witnessIdent = .ok s ∧ noMintClash {} s = false ∧
+      ¬ (fileGlobals {} s).Nodup :=
+  Names.mint_clash_witness_proof
+
+/-- members: with the minted method names (`InitDefault`, `CountSetFields<T>`, fastgo's `BLength` …) kept apart by
+    the decidable hypothesis `noMemberMintClash`, every member of the generated struct is declared once. -/
+theorem struct_members_complete_partial (ft : Feat) (ident : Bytes → Bytes) (g g' : NS) (v : SL) (nn : Bytes)
+    (s : StructNames) (synth : Bool) (h : buildStructLike ft ident g v nn = .ok (g', s))
+    (hid : (memberIds ft ident v.name v.cat v.fields).Nodup)
+    (hraw : ∀ f ∈ v.fields, hasDollar f.name = false)
+    (hm : noMemberMintClash ft synth s = true) : (managedMembers ft s ++ mintedMembers ft synth s).Nodup :=
+  Names.members_complete ft ident g g' v nn s synth h hid hraw hm
+
+end Props.C01
